@@ -599,7 +599,8 @@ func AddFactory(selector Selector, factory ast.BuilderFactory) RewriteRule {
 				return nil, fmt.Errorf("could not apply AddFactory builder veneer: builder factories can not be defined on builders that accept parameters in their constructor")
 			}
 
-			builders[i].Factories = append(builders[i].Factories, factory)
+			// every builder gets a factory of its own: the one given to the rule is shared by all its applications
+			builders[i].Factories = append(builders[i].Factories, factory.DeepCopy())
 		}
 
 		return builders, nil
